@@ -1,4 +1,5 @@
 import Shm.Proto
+import Shm.Store.DiskView
 open Shm
 
 /-- model-side context of a call, printed with every mismatch so that the per-property judges can tell what the
@@ -38,6 +39,7 @@ def sig (op : List String) (rv : Nat) : String := s!"{op.headD "?"}:{rv}"
 structure Drv where
   st : State := {}
   saved : List (String × State) := []
+  disk : Shm.Store.DiskCfg := {}
   lineNo : Nat := 0
   pairs : Nat := 0
   mism : Nat := 0
@@ -62,6 +64,25 @@ partial def loop (h : IO.FS.Stream) (d : Drv) (pendingOp : Option (List String))
         match d.saved.find? (·.1 == name) with
         | some (_, s) => loop h { d with st := s } none
         | none => IO.println s!"PROTOCOL line {d.lineNo}: unknown snapshot {name}"; loop h d none
+      | ["dumpdir"], _rv :: _n :: rows =>
+        -- the independent decoder: the directory must be exactly what the model state implies
+        (match rows.mapM Shm.Store.parseDEntry with
+         | none => do
+           IO.println s!"UNPARSED line {d.lineNo}: dumpdir rows"
+           loop h { d with unparsed := d.unparsed + 1 } none
+         | some ents =>
+           let errs := Shm.Store.checkDisk d.st d.disk ents
+           if errs.isEmpty then do
+             IO.println s!"ok dumpdir:0"
+             loop h { d with pairs := d.pairs + 1 } none
+           else do
+             IO.println s!"MISMATCH line {d.lineNo} cat=disk op=dumpdir :: dumpdir => {errs.length} discrepancies :: {" ; ".intercalate (errs.take 4)} :: ctx  modelrv=0"
+             loop h { d with mism := d.mism + 1, pairs := d.pairs + 1 } none)
+      | ["umask", m], _ =>
+        (match Shm.Store.parseOctal m with
+         | some u => loop h { d with disk := { fileMode := 0o666 &&& (0o7777 - u), dirMode := 0o777 &&& (0o7777 - u) } } none
+         | none => loop h d none)
+      | "fsmut" :: _, _ => loop h d none
       | _, _ =>
       match parsePair op res with
       | none =>
